@@ -7,12 +7,23 @@ import (
 
 type Mutex struct {
 	locked bool
+	epoch  uint64
+}
+
+// fresh clears state left behind by an execution that was torn down while the lock was held
+// (only package-level mutexes outlive an execution).
+func (m *Mutex) fresh() {
+	if e := vs.Epoch(); m.epoch != e {
+		m.epoch = e
+		m.locked = false
+	}
 }
 
 func (m *Mutex) Lock() {
 	if vs.Aborting() {
 		return
 	}
+	m.fresh()
 	vs.BlockObj("lock", m, func() bool { return !m.locked })
 	m.locked = true
 }
@@ -29,6 +40,7 @@ func (m *Mutex) Unlock() {
 }
 
 func (m *Mutex) TryLock() bool {
+	m.fresh()
 	if m.locked {
 		return false
 	}
@@ -40,12 +52,21 @@ type RWMutex struct {
 	writer   bool
 	readers  int
 	wwaiting int
+	epoch    uint64
+}
+
+func (m *RWMutex) fresh() {
+	if e := vs.Epoch(); m.epoch != e {
+		m.epoch = e
+		m.writer, m.readers, m.wwaiting = false, 0, 0
+	}
 }
 
 func (m *RWMutex) Lock() {
 	if vs.Aborting() {
 		return
 	}
+	m.fresh()
 	vs.BlockObj("wlock", m, func() bool { return true }) // the instant Lock executes
 	if m.writer || m.readers != 0 {
 		m.wwaiting++ // announced: later readers queue behind this writer
@@ -68,6 +89,7 @@ func (m *RWMutex) RLock() {
 	if vs.Aborting() {
 		return
 	}
+	m.fresh()
 	// NOTE: wwaiting is only >0 while a writer is parked, which models Go's writer preference.
 	vs.BlockObj("rlock", m, func() bool { return !m.writer && m.wwaiting == 0 })
 	m.readers++
@@ -127,6 +149,11 @@ func (p *Pool) Put(v interface{}) {
 	}
 	p.items = append(p.items, v)
 	vs.Touch(p, "pool.put")
+	// A scheduling point AFTER the release: whatever the caller still does with the object it
+	// has just given back can be overtaken by another thread that gets it from the pool.
+	if !vs.Aborting() {
+		vs.BlockObj("pool.put.done", p, func() bool { return true })
+	}
 }
 
 type Once struct {
@@ -148,10 +175,15 @@ func (o *Once) Do(f func()) {
 
 // WaitGroup mirrors sync.WaitGroup.
 type WaitGroup struct {
-	n int
+	n     int
+	epoch uint64
 }
 
 func (w *WaitGroup) Add(d int) {
+	if e := vs.Epoch(); w.epoch != e {
+		w.epoch = e
+		w.n = 0
+	}
 	w.n += d
 	if w.n < 0 {
 		panic("sync: negative WaitGroup counter")
